@@ -83,6 +83,40 @@ def whole_part(out):
   out.coverage['distinct_nontrivial'] = out.coverage.get('distinct_nontrivial', 0) + len(ok)
   out.coverage['whole_program_layout'] = {'programs': [n for n, t in K.WHOLE_PROGRAMS],
                                           'noise_kinds': 8, 'sample_program': K.WHOLE_PROGRAMS[2][1]}
+  # redundant parentheses around expressions of catalogue programs
+  cases = K.paren_variants()
+  psrc, pnames = K.parens_source(cases)
+
+  def replay_parens(name, args):
+    import re
+    from ..real import parse
+    i = int(name.rsplit('_', 1)[1])
+    m = re.search(r'-?\d+', args or '')
+    v = int(m.group(0)) if m else 0
+    base, vs = cases[i]
+    text = vs[min(v, len(vs) - 1)]
+    try:
+      a = parse.ParseFile(base)['rule']
+      parse.TOO_MUCH = 'too much'
+      b = parse.ParseFile(text)['rule']
+      outcome = 'different rules'
+
+      def plain(n):
+        if isinstance(n, dict):
+          return dict((k, plain(x)) for k, x in n.items() if k not in ('full_text', 'expression_heritage'))
+        if isinstance(n, list):
+          return [plain(x) for x in n]
+        return str(n) if isinstance(n, str) else n
+      differs = plain(a) != plain(b)
+    except parse.ParsingException as e:
+      differs, outcome = True, 'ParsingException: %s' % str(e)[:120]
+    return (differs, 'redundant parentheses around an expression change what is parsed (%s)' % outcome,
+            {'original': base, 'with_parentheses': text, 'kernel': name})
+  pres = kernels.run_kernels(out, 'redundant parentheses (whole programs)', psrc, pnames, 900, replay_parens)
+  okp = [n for n in pnames if pres[n].get('verdict') == 'confirmed' and pres[n].get('twin') == 'reachable']
+  out.coverage['evaluations'] += len(pnames)
+  out.coverage['distinct_nontrivial'] += len(okp)
+  out.coverage['whole_program_layout']['parenthesis_variants'] = sum(len(vs) for b, vs in cases)
   # always-run witness of the known finding
   from ..real import parse
   try:
@@ -103,7 +137,7 @@ def whole_part(out):
 
 def run():
   return run_lemmas('C15', 'c15', FUNCTIONS, ASSUMPTIONS + [
-      'whole-program part: for 8 programs covering the statement forms (facts, disjunction, negation, all three combine syntaxes, aggregating heads, functional predicates, records, lists, if-then-else, implication, annotations, := functors, denotations, string literals full of special characters) and every blank outside string literals, replacing the blank by one of 8 noises (more blanks, line break, tab, block comment, line comment, comments containing brackets / quotes / :-) leaves ParseFile(...)["rule"] unchanged up to the source snippets it carries, and every HeritageAwareString in the tree spans exactly its text; likewise without the final semicolon and with leading / trailing blank lines.  Placement and noise kind are the symbolic variables (solver-driven enumeration, parse runs natively on the resulting concrete text)',
+      'whole-program part: for 8 programs covering the statement forms (facts, disjunction, negation, all three combine syntaxes, aggregating heads, functional predicates, records, lists, if-then-else, implication, annotations, := functors, denotations, string literals full of special characters) and every blank outside string literals, replacing the blank by one of 8 noises (more blanks, line break, tab, block comment, line comment, comments containing brackets / quotes / :-) leaves ParseFile(...)["rule"] unchanged up to the source snippets it carries, and every HeritageAwareString in the tree spans exactly its text; likewise without the final semicolon and with leading / trailing blank lines; and for 10 catalogue programs, wrapping any expression (not the target of `v Op= (...)`) in redundant parentheses in five layouts - (e), ( e ), ((e)), ( (e) ), and across lines - leaves the parsed rules unchanged (193 variants).  Placement and noise kind are the symbolic variables (solver-driven enumeration, parse runs natively on the resulting concrete text)',
       'known finding KF-C15-keyword-needs-blanks is accepted inside the whole-program kernels only as: ParsingException, line break or tab in the noise, position adjacent to one of in / combine / if / then / else / is / not'],
                     'CrossHair executes the real scanner functions symbolically on every string within the stated length '
                     'bounds (free characters range over all code points); each lemma is claimed only when CrossHair reports '
